@@ -66,9 +66,9 @@ def renderAsm (a : Assembled) : String :=
       let fl' := names.flatMap fun n => named.filter (·.1 = n)
       ("mp", joinOr ((groupByName fs).map hexKV),
        joinOr (fl'.map fun f => toHexField f.1 ++ ":" ++ toHexField f.2.1 ++ ":" ++ toHexField f.2.2))
-  s!"m={toHexField a.method};host={toHexField a.host};path={toHexField a.path};rq={toHexField a.rawQuery};" ++
+  s!"m={toHexField a.method};host={toHexField a.host};path={toHexField (collapseSlashes a.path)};rq={toHexField a.rawQuery};" ++
   s!"q={joinOr q};h={joinOr h};ua={toHexField a.userAgent};ref={toHexField a.referer};ck={joinOr ck};" ++
-  s!"ct={toHexField a.contentType};body={body};ff={ff};files={files}"
+  s!"ct={toHexField a.contentType};body={body};ff={ff};files={files};po={toHexField a.path}"
 
 def kvPairs (s : String) : Option (List KV) :=
   if s == "-" then some [] else (s.splitOn ",").mapM fun it => match it.splitOn ":" with
@@ -79,6 +79,12 @@ def triples (s : String) : Option (List (Bytes × Bytes × Bytes)) :=
   if s == "-" then some [] else (s.splitOn ",").mapM fun it => match it.splitOn ":" with
     | [a, c, d] => do some ((← unPart a), (← unPart c), (← unPart d))
     | _ => none
+
+/-- the path the client put into the request URI (before fasthttp's normalisation) -/
+def sentPathOf (s : String) : Option Bytes :=
+  ((s.splitOn ";").filterMap fun p => match p.splitOn "=" with
+    | ["po", v] => fromHex v
+    | _ => none).head?
 
 def parseAsmObs (s : String) : Option AsmObs := do
   let kv := (s.splitOn ";").filterMap fun p => match p.splitOn "=" with
@@ -192,9 +198,11 @@ def handleAsm (id : String) (f : List String) (impl : String) : Except String Ve
     let modelCore : String := match assemble cfg with
       | none => "err=" ++ toHexField (b "the URL is incorrect")
       | some a => if willTimeout then "timeout" else renderAsm a
-    -- fasthttp normalises the path ("//", "/./", "/../"): such paths are outside the modelled domain
+    -- fasthttp resolves dot segments: such paths are outside the modelled domain ("//" is modelled: collapseSlashes)
+    let dotSeg (p : Bytes) : Bool := (indexOf p (b "/./")).isSome || (indexOf p (b "/../")).isSome ||
+      hasSuffix p (b "/.") || hasSuffix p (b "/..")
     let needsNorm := match assemble cfg with
-      | some a => (indexOf a.path (b "//")).isSome || (indexOf a.path (b "/.")).isSome || a.host.isEmpty ||
+      | some a => dotSeg a.path || a.host.isEmpty ||
                   a.host.any (fun c => !(isAlpha c || isDigit c || c == 46 || c == 45 || c == 58))
       | none => false
     if needsNorm && !k2 then throw "outside-domain: URL that the server normalises" else
@@ -218,7 +226,12 @@ def handleAsm (id : String) (f : List String) (impl : String) : Except String Ve
               match specAsmRest cfg urlArgs o with
               | some cl => some cl
               | none =>
-                match specAsmURL cfg uri0 o with
+                -- where the expected path has an empty segment the server's view is ambiguous ("//" collapses on
+                -- the way): the path clause is judged on the path the client put into the request URI
+                let want := (specHostPath (expectedURI (split2 uri0 35).1 cfg.request.pathParams cfg.client.pathParams)).2
+                let o' := if (indexOf want (b "//")).isSome then
+                    (match sentPathOf implCore with | some p => { o with path := p } | none => o) else o
+                match specAsmURL cfg uri0 o' with
                 | some cl => if !tOK && !k2 then none else some cl
                 | none => none
     let known := if k2 && spec == some "path-parameter-arrives(request-over-client)" then some "K2" else none
